@@ -318,3 +318,65 @@ def assignment_forms(chk: Check) -> List[Dict[str, Any]]:
                         op_field=opf[0] if opf else None)
         forms.append(form)
     return forms
+
+
+# ------------------------------------------------------- error conversion
+PARSER_ERROR = 'smartquery.exceptions.ParserError'
+
+
+def raised_class(F, t) -> Optional[Tuple[str, str]]:
+    """('cls', qual) / ('builtin', name) of a raised term."""
+    t = freeze(t)
+    if isinstance(t, tuple) and t:
+        if t[0] == 'new':
+            return ('cls', t[1])
+        if t[0] == 'call' and isinstance(t[2], tuple) and t[2][0] == 'ref' and t[2][1] in ('builtin', 'cls', 'ext'):
+            return (t[2][1], t[2][2])
+        if t[0] == 'ref' and t[1] in ('builtin', 'cls', 'ext'):
+            return (t[1], t[2])
+    return None
+
+
+def is_parser_error(F, rc) -> bool:
+    return rc is not None and rc[0] == 'cls' and F.is_subclass(rc[1], PARSER_ERROR)
+
+
+def catches(F, types, exc_names: List[str]) -> bool:
+    """Does an except clause with these resolved types catch every one of the builtin exceptions named?"""
+    import builtins
+    for en in exc_names:
+        ec = getattr(builtins, en)
+        ok = False
+        for k, q in types:
+            if k == 'builtin':
+                c = getattr(builtins, q, None)
+                if isinstance(c, type) and issubclass(ec, c):
+                    ok = True
+        if not ok:
+            return False
+    return True
+
+
+def conversion_of(F, e: Event, paths: List[Path], exc_names: List[str]) -> Tuple[str, str]:
+    """How a may-raise event's lookup failure is treated.
+
+    -> ('converted', detail) | ('unguarded', detail) | ('swallowed', detail) | ('other', detail)
+    """
+    for ctx in reversed(e.d.get('handlers') or []):
+        _, tnode, descr = ctx
+        for types, h in descr:
+            if catches(F, types, exc_names):
+                outcomes = set()
+                for p in paths:
+                    for x in p.events:
+                        if x.kind == 'exc_edge' and x.d.get('handler') is h:
+                            rc = raised_class(F, p.outcome[1]) if p.outcome[0] == 'raise' else None
+                            outcomes.add('ParserError' if (p.outcome[0] == 'raise' and is_parser_error(F, rc)) else
+                                         ('raises %s' % show(p.outcome[1]) if p.outcome[0] == 'raise' else 'continues'))
+                if outcomes == {'ParserError'}:
+                    return ('converted', 'except %s -> ParserError' % '/'.join(q for _, q in types))
+                if not outcomes:
+                    return ('other', 'handler found but its paths were not enumerated')
+                return ('swallowed' if 'continues' in outcomes else 'other',
+                        'handler for %s %s' % ('/'.join(q for _, q in types), ', '.join(sorted(outcomes))))
+    return ('unguarded', 'no enclosing handler catches %s' % '/'.join(exc_names))
